@@ -3,18 +3,25 @@ TracedBytes (read log), TracedFragments (write log), wrappers of get_fields() tu
 (field events), projections of real objects to the specification's tagged values.
 """
 import contextlib
+import sys
 
 from bisturi import fragments as _fragments
 import bisturi.packet as _packet
 from bisturi.packet import Packet, PacketError
 
 
+_SCAN_FUNCS = ("_unpack_with_string_marker", "_unpack_with_regexp_marker")
+
+
 class TracedBytes(bytes):
-    """bytes whose slicing is logged: (start, stop, lo, hi) with [lo, hi) the range actually returned"""
+    """bytes whose slicing is logged: [lo, hi) actually returned, `want` = requested length,
+    `window` = the slice is the search buffer of a delimiter scan (first slice taken by one of
+    Data's scan methods; when those cannot be recognised, an open-ended slice)."""
 
     def __new__(cls, data, log):
         self = bytes.__new__(cls, data)
         self.log = log
+        self._last = (None, -1)
         return self
 
     def __getitem__(self, idx):
@@ -24,12 +31,20 @@ class TracedBytes(bytes):
             lo, hi, step = idx.indices(n)
             if hi < lo:
                 hi = lo
-            want = None
             if idx.start is not None and idx.stop is not None:
                 want = idx.stop - idx.start
-            self.log.append({"lo": lo, "hi": hi, "want": want, "start": idx.start, "stop": idx.stop})
+            else:
+                want = hi - lo
+            fr = sys._getframe(1)
+            if fr.f_code.co_name in _SCAN_FUNCS:
+                key = id(fr)
+                window = not (self._last[0] == key and fr.f_lasti > self._last[1])
+                self._last = (key, fr.f_lasti)
+            else:
+                window = idx.stop is None
+            self.log.append({"lo": lo, "hi": hi, "want": want, "window": window})
         else:
-            self.log.append({"lo": idx, "hi": idx + 1, "want": 1, "start": idx, "stop": idx + 1})
+            self.log.append({"lo": idx, "hi": idx + 1, "want": 1, "window": False})
         return r
 
 
